@@ -16,6 +16,7 @@ EXPLANATION = (
     "importer; (CLOCK) the exporter writes int(ppq)/int(mpq) to midiClockUnits/Rate and converts seconds with the same "
     "pair, the importer reads those attributes, converts with them and hands them to PerformedPart; (F6-labels) the four "
     "alignment labels the exporter dispatches are the four the importer produces; (F8b/F4d/F7a/F8a)."
+    " (TICK-src) every tick handed to a pedal or note line constructor is the result of seconds_to_midi_ticks with the header's mpq and ppq."
 )
 NOT_DECIDED = [
     "everything about the reconstructed score's values (beat/offset arithmetic, divisions inference): run-time",
